@@ -27,6 +27,7 @@ type Config struct {
 	WallS        int // wall budget per harness
 	SampleModels int // number of completed paths per harness for which an input vector is extracted
 	Summarize    []string
+	FuncStubs    map[string]string // function (full name) -> harness function of the same signature that replaces it
 	LoopBound    int // merge-mode unrolling bound
 	Verbose      bool
 	Thorough     bool
